@@ -181,18 +181,43 @@ def hintStr (h : PyK.PyHint) : String :=
 def pyStr {α} (f : α → String) : PyI.Py α → String
   | none => "fuel" | some none => "(raise)" | some (some a) => f a
 
+/-- `sigOfDefinitionM d` (any number of modules), with the modules and the scopes of ALL rules; on a one-module definition the
+one-module specification `sigOfDefinition` must say the same (`(one-module-spec-differs)` otherwise) -/
+def specMStr (d : PyK.KDefinition) : String :=
+  match KDefSpec.sigOfDefinitionM d, KDefSpec.modulesOfDefinition d with
+  | some ds, some (all, ms) =>
+    let mods := ms.map fun (m : KDefSpec.ModSem) =>
+      s!"({m.name} {natsToStr m.imports} {natsToStr m.reach} {natsToStr m.sorts} {natsToStr m.symbols} {natsToStr m.ordinals})"
+    let scopes := all.rules.map fun (r : KDefSpec.Rule) => s!"({r.ordinal} {natsToStr r.scope.mvs} {natsToStr r.scope.sortParams})"
+    let base := String.ofList ((specStr ds).toList.dropLast)
+    s!"{base} (mods {" ".intercalate mods}) (allscopes {" ".intercalate scopes}))"
+  | _, _ => "(refused)"
+
+def specOf (d : PyK.KDefinition) : Option KDefSpec.DefSem := KDefSpec.sigOfDefinitionM d
+
+def oneModuleAgrees (d : PyK.KDefinition) : Bool :=
+  d.modules.length != 1 ||
+    (match KDefSpec.sigOfDefinition d, KDefSpec.sigOfDefinitionM d with
+     | none, none => true
+     | some a, some b => specStr a == specStr b
+     | _, _ => false)
+
 def kdefRun (d : PyK.KDefinition) : String :=
-  let spec := match KDefSpec.sigOfDefinition d with | none => "(refused)" | some ds => specStr ds
+  let spec := if oneModuleAgrees d then specMStr d else "(one-module-spec-differs)"
   let gen := pyStr lsStr (Gen.PyKDef.LanguageSemantics.from_kore_definition id fuel d)
   s!"(kdef {spec} {gen})"
 
 def khintsRun (d : PyK.KDefinition) (tr : PyK.PyLLVMTrace) : String :=
-  let spec := match KDefSpec.sigOfDefinition d with
+  let spec := match specOf d with
     | none => "(refused)"
     | some ds => match KDefSpec.traceStepsR ds tr with
       | none => "(raise)"
       | some (_, rules, steps) =>
-        let scopes := rules.map fun (r : KDefSpec.Rule) => s!"({r.ordinal} {natsToStr r.scope.mvs} {natsToStr r.scope.sortParams})"
+        -- the cache holds the scopes of the rules of ALL modules; the trace extends those of the rules `get_axiom` finds
+        let allRules := (KDefSpec.allRulesOfDefinition d).getD rules
+        let scopes := allRules.map fun (r0 : KDefSpec.Rule) =>
+          let r := (rules.find? (fun (x : KDefSpec.Rule) => x.ordinal == r0.ordinal)).getD r0
+          s!"({r.ordinal} {natsToStr r.scope.mvs} {natsToStr r.scope.sortParams})"
         s!"(hints {" ".intercalate (steps.map fun s => hintStr (KDefTie.hintOf s))} (scopes {" ".intercalate scopes}))"
   let gen := match Gen.PyKDef.LanguageSemantics.from_kore_definition id fuel d with
     | some (some h) =>
